@@ -607,6 +607,18 @@ def linked_unequal(case):
         # option lists, which leaves unequal counts
         if any(opts.get(c, set()) & inc_nodes for c in con['choices']):
             return True
+        # ... and so may an option that derives such a node by ordinary derivation edges
+        for c in con['choices']:
+            for o in opts.get(c, set()):
+                seen, todo = {o}, [o]
+                while todo:
+                    x = todo.pop()
+                    for s_, t_ in case.get('edges', []):
+                        if s_ == x and t_ not in seen:
+                            seen.add(t_)
+                            todo.append(t_)
+                if seen & inc_nodes:
+                    return True
     return False
 
 
